@@ -2,3 +2,5 @@ import PyhfDriver.Json
 import PyhfDriver.Interp
 import PyhfDriver.ModelOps
 import PyhfDriver.InferOps
+import PyhfDriver.PatchOps
+import PyhfDriver.WsOps
